@@ -30,7 +30,7 @@ CLAIMED = {
         text="Unbounded proof for all three source kinds: ccsds_generator is verified with loop invariants (buffer window "
              "read_buffer == T[R-len:R], position == frame boundary fb(j), yielded == the j consecutive records) against "
              "the ghost source model E1 in which every read()/recv() returns SOME non-empty prefix of what remains "
-             "(universally quantified fragmentation), any read size, any prefix k, including the > 20 MB buffer trim; "
+             "(universally quantified fragmentation), any read size, any prefix k, with and without the progress display, including the > 20 MB buffer trim; "
              "exactness on well-formed streams is a lemma (ghost client program) over the framer's contract.",
         design_ref="DESIGN.md 7 (C02)", note="E1 (assumed contract on BufferedIOBase.read/seek and socket.recv)",
         technique="contract-based deductive verification with loop invariants; lemma over contracts"),
@@ -72,8 +72,9 @@ CLAIMED = {
         text="Total-correctness proof of the same function for ARBITRARY finite sources: decreases clauses on all three "
              "loops (termination), every yielded item is complete (its own length field) and a consecutive slice of the "
              "input, the unconsumed remainder is shorter than one complete record, no exception escapes - for bytes, "
-             "file and socket sources under E1, empty input and every cut point included (symbolic).",
-        design_ref="DESIGN.md 7 (C10)", note="E1; decode-time exceptions of a definition's decoders belong to C07/C08/C14",
+             "file and socket sources under E1, empty input and every cut point included (symbolic), with and without the progress "
+             "display (_print_progress is under contract: no exception for any byte / packet counts, known, unknown or zero total).",
+        design_ref="DESIGN.md 7 (C10)", note="E1, E12 (time.time_ns / timedelta / print do not raise); decode-time exceptions of a definition's decoders belong to C07/C08/C14",
         technique="contract-based deductive verification incl. termination (loop variants)"),
     'C11': dict(cat=P,
         text="packet_generator is PROVED against the proved framer contract (bytes, file and socket sources): every yielded item is the raw packet (headers only), the packet object returned by parse_ccsds_packet for THIS raw packet alone (bytes(packet.raw_data) == the raw packet when unsegmented or combining is off), or - only when requested - the error object of an unrecognized packet whose partial_data is that packet; at most one item per raw packet; the only state carried between iterations is the segment-group dict, which is unchanged whenever combining is off (step clause `alone`). parse_ccsds_packet's frame obligations show it writes nothing but the packet's items and cursor. Interleaving of several generators and `canon_definition` unchanged are checked by the bounded stand-in (ref_stream), incl. one-APID streams that alternate recognizable / unrecognizable / ambiguous packets.",
